@@ -5,6 +5,8 @@ package iavl
 import (
 	"fmt"
 	"sort"
+
+	"github.com/cosmos/iavl/internal/encoding"
 )
 
 // Verification hooks (build tag `verif` only; see /verif/DESIGN.md §2.3). Nothing in this file is
@@ -55,4 +57,18 @@ func verifYield(point string) {
 	if f := VerifYield; f != nil {
 		f(point)
 	}
+}
+
+// Re-exports of the internal decoders for direct fuzzing (property C13).
+func VerifDecodeBytes(bz []byte) ([]byte, int, error)   { return encoding.DecodeBytes(bz) }
+func VerifDecodeVarint(bz []byte) (int64, int, error)   { return encoding.DecodeVarint(bz) }
+func VerifDecodeUvarint(bz []byte) (uint64, int, error) { return encoding.DecodeUvarint(bz) }
+
+// VerifNodeFields exposes the decoded fields of a node for comparison with the model's decoder.
+func VerifNodeFields(n *Node) (height int8, size int64, version int64, key, value, hash, left, right []byte, legacy bool) {
+	var ver int64
+	if n.nodeKey != nil {
+		ver = n.nodeKey.version
+	}
+	return n.subtreeHeight, n.size, ver, n.key, n.value, n.hash, n.leftNodeKey, n.rightNodeKey, n.isLegacy
 }
